@@ -38,6 +38,12 @@ var seedsJS = []string{
 	"x = {async: 1, get: 2, set: 3, static: 4}", "x = {get() {}, set() {}, async() {}, static() {}}", "class A { get; set; static; async; static static() {} }",
 	"x = a ? b : c, d;", "x = a = b ? c : d;", "x = () => a ? b : c;", "a || b && c | d ^ e & f == g < h << i + j * k ** l;",
 	"`${a}${b}`", "`${{}}`", "`${`${`${a}`}`}`", "x = `${a /* } */}`", "x = `${'`'}`;",
+	// rest elements and initialisers in what may be arrow parameters; computed keys; chains of else-if
+	"({...a=1})=>a", "([{...a=1}])=>a", "({b:{...a=1}})=>a", "async({...a=1})=>a", "({...a})=>a", "({...a.b})=>a", "({...[a]})=>a", "({a=1,...b})=>a", "([...a=1])=>a", "([a,...b=1])=>0",
+	"({[[x]]:a})=>a", "({[{x:1}.x]:b})=>b", "x={...a=1}", "[...a=1]=b", "({...a=1}=b)", "(a=1,{b=2},[c=3])=>0", "(...a=1)=>0", "(a,...[b=1])=>0",
+	"if (a) b; else if (c) d; else if (e) f; else if (g) h; else i", "if (a) {} else if (b) {} else if (c) {}", "if (a) if (b) c; else if (d) e; else if (f) g; else h; else i",
+	"x = a + b + c + d; y = a - (b - c) - d; z = a * b + c * d - e", "x = a && b && c || d || e ?? f",
+	"function f(a=b,...c){var b} class A{m(p=q){var q} static{var x}} x={m(p=q){let q}}", "x = async (a, b) => a + b; async(a, b); var async",
 }
 
 var seedsCSS = []string{
